@@ -14,6 +14,7 @@ from concurrent.futures import ThreadPoolExecutor
 from fractions import Fraction
 from functools import reduce
 
+import itertools
 import numpy as np
 
 from ..common import MachineryError, write_cfg
@@ -275,6 +276,14 @@ def check_state(ctx, name, consts, ref, rp, by_hist):
                       ('grid_hessian', f.grid_hessian(grid), g.grid_hessian(grid))]
             pt = tuple(0.3 + 0.1 * a for a in range(len(kvf)))
             checks.append(('call', np.asarray(f(*pt)), np.asarray(g(*pt))))
+            # single points at every combination of: both ends of the parameter interval (the upper end belongs to the last
+            # cell of every level), the first and the last interior breakpoint of the finest mesh, an interior point
+            axes_pts = [sorted({float(kv.kv[0]), float(kv.kv[-1]), float(kv.mesh[1]), float(kv.mesh[-2]), 0.3 + 0.1 * a})
+                        for a, kv in enumerate(kvf)]
+            P = list(itertools.product(*axes_pts))
+            checks.append(('call(at ends, breakpoints and interior points)',
+                           np.array([np.asarray(f(*[q[len(kvf) - 1 - c] for c in range(len(kvf))]), dtype=float) for q in P]),
+                           np.array([np.asarray(g(*[q[len(kvf) - 1 - c] for c in range(len(kvf))]), dtype=float) for q in P])))
             for nm, a, b in checks:
                 a, b = np.asarray(a, dtype=float), np.asarray(b, dtype=float)
                 scale = max(1.0, abs(b).max())
